@@ -25,7 +25,8 @@ func (p *PeerPool) SetPeerHealthForVerif(nodeID string, healthy bool) {
 // RankedForVerif returns the rendezvous ranking of the current peer list for a subscriber.
 func (p *PeerPool) RankedForVerif(subscriberID string) []string {
 	p.mu.RLock()
-	nodes := p.peerNodes
+	nodes := make([]string, len(p.peerNodes))
+	copy(nodes, p.peerNodes)
 	p.mu.RUnlock()
 	r := rendezvousRanked(subscriberID, nodes)
 	out := make([]string, len(r))
